@@ -4,7 +4,12 @@ L1  MCStore.tla: StoreModel.tla (required effects of Push/Tag/Untag/Delete/GC) e
     universe on N nodes and every history of <= MaxOps operations; invariants are the properties' clauses.
 L3  StoreMon.tla replays recorded histories of the real memory / OCI-layout / file stores against the model: every
     operation result, every live observation, the raw directory, and the layout reopened read-write / from an
-    fs.FS / from a tar must agree with the model state (deterministic model, so L2 = L3)."""
+    fs.FS / from a tar must agree with the model state (deterministic model, so L2 = L3).
+    Half of the histories end in a concurrent tail: 2-3 operations run as goroutines, released one at a time at the
+    `verif`-tagged scheduling points inside the stores (vh.PSched; a goroutine that blocks on a lock held by a parked one
+    is detected by a quiet period); StoreMon runs every order of those operations through the model and requires the
+    quiescent observation to be the state of one of them (ConcurrentSerializable), and every concurrent Fetch that
+    succeeded to have returned matching bytes."""
 import json
 import os
 
@@ -27,6 +32,8 @@ def owners(inv, lastop):
             out.add("C09")
     if inv == "NoHang":
         out.add("C09")
+    if inv.startswith("Concurrent"):
+        out.add("C06")
     if inv == "OpResult" and lastop in ("delete", "gc"):
         out.discard("C06")
         out.add("C09")
@@ -68,7 +75,7 @@ def judge(ctx, out, summ, confirm=True):
         for r in tr:
             if r["i"] > v["i"]:
                 break
-            if r["e"] == "op" and r["op"] in MUT:
+            if r["e"] in ("op", "pop") and r["op"] in MUT:
                 lastop = r["op"]
         own = owners(v["inv"], lastop)
         if ctx.pid not in own:
@@ -106,9 +113,9 @@ def run(ctx, replay=None):
     if summ["hangs"]:
         ctx.notes.append("%d histories ended in a hang" % summ["hangs"])
     scen = read_ndjson(os.path.join(out, "scenarios.ndjson"))
-    distinct = {json.dumps([s["kind"], s["nodes"], s["ops"], s["autogc"], s["autosave"]]) for s in scen
+    distinct = {json.dumps([s["kind"], s["nodes"], s["ops"], s["autogc"], s["autosave"], s.get("par"), s.get("choices")]) for s in scen
                 if len(s["ops"]) >= 5}
-    nops = sum(len(s["ops"]) for s in scen)
+    nops = sum(len(s["ops"]) + len(s.get("par") or []) for s in scen)
     mid = scen[len(scen) // 2]
     return {
         "evaluations": nops, "distinct_nontrivial": len(distinct),
@@ -118,4 +125,5 @@ def run(ctx, replay=None):
         "traces_validated_against_impl": summ["histories"],
         "samples": [{"scenario": mid, "trace": trace_of(summ["files"][0], mid["id"], 40)}],
         "histories": summ["histories"], "per_kind": summ["per_kind"], "exhaustive": False,
+        "concurrent_tails": sum(1 for s in scen if s.get("par")),
     }
